@@ -72,7 +72,12 @@ func New[K ~string, V any](expTime, cleanupTime time.Duration) *Cache[K, V] {
 // Set inserts a new item into the cache, but first verifies if an item with the same key already exists in the cache.
 // In case an item with the specified key already exists in the cache it will return an error.
 func (c *Cache[K, V]) Set(key K, val V, d time.Duration) error {
-	item, err := c.Get(key)
+	// The liveness test and the insertion have to happen under the same lock
+	// acquisition, otherwise two concurrent calls for the same key both succeed.
+	c.mu.Lock()
+	defer c.mu.Unlock()
+
+	item, err := c.get(key)
 	if item != nil && err == nil {
 		return fmt.Errorf("item with key '%v' already exists. Use the Update method", key)
 	}
@@ -88,6 +93,7 @@ func (c *Cache[K, V]) SetDefault(key K, val V) error {
 // add inserts a new item into the cache together with an expiration time.
 // If the duration is 0 (or DefaultExpiration) the cache default expiration time is used.
 // If the duration is < 0 (or NoExpiration), the item never expires and should be removed manually.
+// The caller must hold the write lock.
 func (c *Cache[K, V]) add(key K, val V, d time.Duration) error {
 	var exp int64
 
@@ -100,7 +106,7 @@ func (c *Cache[K, V]) add(key K, val V, d time.Duration) error {
 		exp = int64(NoExpiration)
 	}
 
-	item, err := c.Get(key)
+	item, err := c.get(key)
 	if item != nil && err != nil {
 		return fmt.Errorf("item with key '%v' already exists", key)
 	}
@@ -112,12 +118,10 @@ func (c *Cache[K, V]) add(key K, val V, d time.Duration) error {
 		}
 	}
 
-	c.mu.Lock()
 	c.items[key] = &Item[V]{
 		object:     val,
 		expiration: exp,
 	}
-	c.mu.Unlock()
 
 	return nil
 }
@@ -127,18 +131,22 @@ func (c *Cache[K, V]) add(key K, val V, d time.Duration) error {
 // when the purge method is invoked at the predefined interval.
 func (c *Cache[K, V]) Get(key K) (*Item[V], error) {
 	c.mu.RLock()
+	defer c.mu.RUnlock()
+
+	return c.get(key)
+}
+
+// get has a local scope only. The caller must hold the lock.
+func (c *Cache[K, V]) get(key K) (*Item[V], error) {
 	if item, ok := c.items[key]; ok {
 		if item.expiration > 0 {
 			now := time.Now().UnixNano()
 			if now > item.expiration {
-				c.mu.RUnlock()
 				return nil, fmt.Errorf("item with key '%v' expired", key)
 			}
 		}
-		c.mu.RUnlock()
 		return item, nil
 	}
-	c.mu.RUnlock()
 	return nil, fmt.Errorf("item with key '%v' not found", key)
 }
 
@@ -153,7 +161,10 @@ func (it *Item[V]) Val() V {
 
 // Update replaces a cache item with the new value.
 func (c *Cache[K, V]) Update(key K, val V, d time.Duration) error {
-	item, err := c.Get(key)
+	c.mu.Lock()
+	defer c.mu.Unlock()
+
+	item, err := c.get(key)
 	if item != nil && err != nil {
 		return err
 	}
